@@ -367,6 +367,12 @@ def run_rules(ctx, res):
         res.inst(N4, "first-after-dot", c.where, True, "FIRST of %s with %s" % (a0[:100], a1))
         if not okq:
             res.violate(N4, "first-after-dot", c.where, "implied look-aheads must be FIRST(symbols after the dot of the given item) augmented with that item's own look-ahead; found (%s, %s)" % (a0[:120], a1))
+        # ... on every path: the function has no other result than that augmentation (no shortcut for special sequences)
+        rret = canon(fx.local(0))
+        single = not rret.startswith("phi[") and re.match(r"^[\w:]+\(", rret) is not None and len([b for b in f.blocks if not b["cleanup"] and b["term"]["k"] == "switch"]) == 0
+        res.inst(N4, "first-after-dot|single-result", f.where, True, rret[:140])
+        if not single:
+            res.violate(N4, "first-after-dot|single-result", f.where, "%s must return the augmented FIRST set on every path; it has other results / branches (`%s`): a shortcut for some sequences gives them different look-aheads" % (f.name, rret[:200]))
     res.floor("FIRST-after-dot sites", len(fa), 1)
 
     # ---- N6: FIRST of a symbol sequence
@@ -493,6 +499,38 @@ def run_rules(ctx, res):
             if not ok7:
                 res.violate(N7, "first-terminals|%s" % f.name, f.where, "FIRST of a symbol sequence must take in the FIRST terminals of every nonterminal it visits whether or not it is nullable; here `%s.terminals` is %s — a nullable nonterminal then contributes nothing and look-ahead sets come out too small" % (X[:100], "added only on one side of the nullability test" if adders else "never added"))
     res.floor("nullability tests inside FIRST-of-sequence loops", n7, 3)
+
+    # ---- N8: no symbol of the sequence is passed over: every way round the loop goes through the nullability test
+    # of the current symbol (a `continue` before it treats the symbol as nullable and contributes nothing)
+    N8 = "R-C17-firstskip"
+    res.rule(N8, "in every FIRST-of-sequence loop each path from the loop head back to the loop head passes through the test of the current symbol's nullability: no symbol is skipped")
+    n8 = 0
+    for (f, h, body, exits) in seqs:
+        fx = Exprs(f)
+        tests = set()
+        for b in body:
+            t_ = f.blocks[b]["term"]
+            if t_["k"] == "switch" and re.search(r"\.contains_epsilon\)?$", canon(fx.operand(t_["discr"]))):
+                tests.add(b)
+        if not tests:
+            continue
+        n8 += 1
+        # walk from the successors of the head inside the body, never entering a test block: reaching the head again = skipped symbol
+        work, seen8 = [s_ for s_ in f.succs(h) if s_ in body], set()
+        skipped = False
+        while work:
+            x = work.pop()
+            if x in seen8 or x in tests or x not in body:
+                continue
+            seen8.add(x)
+            for s_ in f.succs(x):
+                if s_ == h:
+                    skipped = True
+                work.append(s_)
+        res.inst(N8, "no-symbol-skipped|%s" % f.name, f.where, True, "nullability tests at blocks %s; a way round the loop without them: %s" % (sorted(tests), skipped))
+        if skipped:
+            res.violate(N8, "no-symbol-skipped|%s" % f.name, f.where, "%s can go on to the next symbol of the sequence without having tested the current one's nullability (a `continue` / skipped case): the skipped symbol is treated as if it could vanish, FIRST sets and look-aheads come out too large" % f.name)
+    res.floor("FIRST-of-sequence loops checked for skipped symbols", n8, 3)
 
     # ---- N5
     tr = [f for f in stage if any((c.rpath or "").endswith("HashSet::<T, S, A>::insert") and "Transition" in str(c.callee.get("args")) for c in f.calls())]
